@@ -100,6 +100,10 @@ pub enum Auth {
     Both(u8),
     /// SHA-1 under the key, one bit of the HMAC flipped
     Sha1Flipped(u8),
+    /// MESSAGE-INTEGRITY-SHA256 truncated to 16 bytes (RFC 8489 14.6 allows 16..=32): valid
+    Sha256Trunc(u8),
+    /// SHA-256 under the key, one bit of the HMAC flipped
+    Sha256Flipped(u8),
 }
 
 #[derive(Clone, Copy, Debug, Serialize, Deserialize, PartialEq, Eq, Hash, PartialOrd, Ord)]
@@ -239,6 +243,12 @@ pub fn response_wire(id: u8, class: u8, auth: Auth) -> Vec<u8> {
         Auth::Both(k) => {
             wire::append_mi(&mut b, &key_bytes(k));
             wire::append_mi256(&mut b, &key_bytes(k), 32);
+        }
+        Auth::Sha256Trunc(k) => wire::append_mi256(&mut b, &key_bytes(k), 16),
+        Auth::Sha256Flipped(k) => {
+            wire::append_mi256(&mut b, &key_bytes(k), 32);
+            let l = b.len();
+            b[l - 19] ^= 0x40;
         }
         Auth::Sha1Flipped(k) => {
             wire::append_mi(&mut b, &key_bytes(k));
